@@ -22,6 +22,16 @@ int main(int argc, char** argv) {
     result_t r = f.writeSymbols(0, &in, &out, &used);
     if (r != RESULT_OK || out.dataAt(0) != kv.first) fail("value list: input \"%s\" encoded as %02x (%s), expected %02x", text.c_str(), (unsigned)out.dataAt(0), getResultCode(r), kv.first);
   }
+  // names that read as numbers: the name is looked up first (decode(encode) round trip)
+  {
+    map<unsigned int, string> v2 = {{0, "1"}, {1, "2"}, {2, "1.5 h"}, {3, "4"}};
+    ValueListDataField g("steps", attrs, DataTypeList::getInstance()->get("UCH"), pt_slaveData, 1, v2);
+    for (auto& kv : v2) {
+      istringstream in(kv.second); SlaveSymbolString out; out.push_back(0); size_t used = 0;
+      result_t r = g.writeSymbols(0, &in, &out, &used);
+      if (r != RESULT_OK || out.dataAt(0) != kv.first) fail("value list 0=1;1=2;2=1.5 h;3=4 on UCH: the name \"%s\" of value %u is encoded as %02x (%s)", kv.second.c_str(), kv.first, (unsigned)out.dataAt(0), getResultCode(r));
+    }
+  }
   if (!g_failures) printf("NOT-REPRODUCED\n");
   return 0;
 }
